@@ -117,6 +117,8 @@ class C16(HistoryProperty):
             op["sw"] = {"cache": rng.choice(CACHE_SW), "effects": rng.choice(EFFECT_SW), "logging": rng.choice(LOG_SW),
                         "nest": rng.random() < 0.5, "toggle_ds": rng.choice(names)}
             if rng.random() < 0.3:
+                op["sw"]["twice"] = rng.choice([True, "both"])
+            if rng.random() < 0.3:
                 op["sw"]["spell"] = {w: [rng.random() < 0.6, rng.random() < 0.6] for w in ("cache", "effects", "logging") if rng.random() < 0.6}
         # the caller keeps ONE options dictionary and edits it in place between evaluations (in a third of the histories)
         return {"cfg": cfg, "spec": spec, "ops": ops, "nocache_variant": variant, "inplace": rng.random() < 0.33}
@@ -175,7 +177,9 @@ class C16(HistoryProperty):
                         if sw["effects"] == "toggle":
                             toggled = self._family(spec, sw["toggle_ds"])
                             for nid in toggled:
-                                w.prog.obj[nid].disable_effects()
+                                # (the per-dataset toggle is a flag: switching off twice is switching off once)
+                                for _ in range(2 if op["sw"].get("twice") else 1):
+                                    w.prog.obj[nid].disable_effects()
                         o = with_switches(op["o"], op["sw"])
                         ctxs = []
                         if sw["cache"] == "ctx":
@@ -203,6 +207,18 @@ class C16(HistoryProperty):
                         n_sink, n_seam, n_seam_all = len(sink.records), len([x for x in seam if x[0] == logging.INFO]), len(seam)
                         for nid in toggled:
                             w.prog.obj[nid].enable_effects()
+                            if op["sw"].get("twice") == "both":
+                                w.prog.obj[nid].enable_effects()
+                        if not out.ok and ctxs and out.exc is not None:
+                            # user code failing INSIDE the with-block: the exception leaves through labrea's context managers,
+                            # which must restore the thread's runtime all the same (later ops run with whatever is left)
+                            try:
+                                with contextlib.ExitStack() as st:
+                                    for c in ctxs:
+                                        st.enter_context(c())
+                                    raise out.exc
+                            except type(out.exc):
+                                res.bump("exceptions_leaving_through_switch_contexts")
                         # reference: all switches off (cache disabling mirrored, by context, to keep both caches aligned)
                         rbefore = ref.snapshot_counts()
                         del seam[:]
